@@ -67,6 +67,19 @@ let handle (pl : string) : string =
     let ns = List.length (List.filter (fun c -> c >= 1000) sc) in
     result ("futcopy" ^ g)
       (let ((st, evs), oc) = run p fuel (init_fut_copy (nat_of_int (ios g))) (nat_list sc) O [] [] in (st, evs, oc)) ns
+  | ["locker"; sched] ->
+    let sc = ints sched in
+    let ns = List.length (List.filter (fun c -> c >= 1000) sc) in
+    result "locker" (let ((st, evs), oc) = run p fuel init_locker (nat_list sc) O [] [] in (st, evs, oc)) ns
+  | ["prefs"; sched] ->
+    let sc = ints sched in
+    let ns = List.length (List.filter (fun c -> c >= 1000) sc) in
+    result "prefs" (let ((st, evs), oc) = run p fuel init_prefs (nat_list sc) O [] [] in (st, evs, oc)) ns
+  | ["ssd"; lims; rs; k; sched] ->
+    let l = ints lims and r = ints rs and sc = ints sched in
+    let ns = List.length (List.filter (fun c -> c >= 1000) sc) in
+    result (Printf.sprintf "ssd%d:k%s:re%d" (List.length l) k (List.fold_left (+) 0 r))
+      (let ((st, evs), oc) = run p fuel (init_ssd (nat_list l) (nat_list r) (nat_of_int (ios k))) (nat_list sc) O [] [] in (st, evs, oc)) ns
   | ["pool"; n; sched] ->
     let sc = ints sched in
     let ns = List.length (List.filter (fun c -> c >= 1000) sc) in
